@@ -40,6 +40,9 @@ def kinds(k):
         "live": dict(imports=IMPORTS, type="live_case", mismatch="live_mismatches", nontrivial="live_nontrivial"),
         "table": dict(imports="From Coq Require Import NArith.\nFrom SS Require Import Base M_Bytecode M_ExcTable.",
                       type="table_case", mismatch="table_mismatches", nontrivial="table_nontrivial"),
+        # CPython 3.10 / 3.9 (block-stack code path): cases produced by harness/bs_child.py under those interpreters
+        "bs": dict(imports="From SS Require Import Base M_BlockStack.", type="bs_case", mismatch="bs_mismatches",
+                   nontrivial="bs_nontrivial"),
     }
 
 
@@ -266,6 +269,45 @@ def alt_collect(proc, tier, which):
             yield json.loads(line)
 
 
+BS_PY = (("3.10", "/root/.pyenv/versions/3.10.*/bin/python"), ("3.9", "/root/.pyenv/versions/3.9.*/bin/python"))
+
+
+def bs_start(tier, seed):
+    """start harness/bs_child.py under CPython 3.10 and 3.9 (kind `bs`: block-stack model M_BlockStack.v)"""
+    import glob as _glob
+    import subprocess
+    here = os.path.dirname(os.path.abspath(__file__))
+    procs = []
+    for label, pat in BS_PY:
+        paths = sorted(_glob.glob(pat))
+        if not paths:
+            continue
+        repo = os.environ.get("VERIF_REPO", "/repo")
+        env = dict(os.environ, PYTHONHASHSEED="0", PYTHONDONTWRITEBYTECODE="1",
+                   PYTHONPATH=os.pathsep.join([repo, os.path.dirname(here), os.path.join(here, "shims")]))
+        procs.append((label, subprocess.Popen([paths[-1], "-m", "harness.bs_child", tier, str(seed)], stdout=subprocess.PIPE,
+                                              stderr=subprocess.PIPE, text=True, env=env, cwd=os.path.dirname(here))))
+    return procs
+
+
+def bs_collect(procs, tier):
+    import json
+    import subprocess
+    for label, proc in procs:
+        try:
+            out, err = proc.communicate(timeout=600 if tier == "quick" else 3000)
+        except subprocess.TimeoutExpired:
+            proc.kill()
+            out, err = "", "timed out"
+        if proc.returncode != 0:
+            yield {"_kind": "bs", "which": "bs", "ver": label, "src": "bs-error",
+                   "pre": {"obs": {"what": "bs_child under CPython %s" % label, "machine_error": "child failed: " + err[-800:]}}}
+            continue
+        for line in out.splitlines():
+            if line.startswith("{"):
+                yield json.loads(line)
+
+
 def make_descs(tier, seed, which, alt=False):
     """which: 'susp' | 'run' -> descriptors for kinds cert and static"""
     rng = random.Random(seed * 104729 + 1)
@@ -287,8 +329,11 @@ def make_descs(tier, seed, which, alt=False):
         descs.append({"src": "gen", "seed": seed * 1000003 + k, "size": 4 + (k % 9),
                       "many": (k % 8 == 3) if tier == "quick" else (k % 30 == 3)})
     proc = None
+    bs_procs = []
     if not alt:
         proc = alt_start(tier, seed, which)
+        if which == "susp":
+            bs_procs = bs_start(tier, seed)
         yield {"_kind": "live", "which": which, "tier": tier, "seed": seed}
     for d in descs:
         yield dict(d, _kind="cert", which=which)
@@ -300,6 +345,7 @@ def make_descs(tier, seed, which, alt=False):
         yield from syn_table_descs(tier, seed, which)
     if not alt:
         yield from alt_collect(proc, tier, which)
+        yield from bs_collect(bs_procs, tier)
 
 
 _CACHE = {}
@@ -707,6 +753,8 @@ def coq_case(desc, obs):
                               W.table_coq([tuple(x) for x in obs["parsed"]]))
     if "machine_error" in obs:
         return None
+    if desc["_kind"] == "bs":
+        return bs_coq(obs)
     units, table, cert = get_uct(desc)
     if desc["_kind"] == "join":
         return join_coq(units, table, obs["join"], desc.get("ver", "V312"))
@@ -725,8 +773,45 @@ def coq_case(desc, obs):
                                           clist([ex(e) for e in obs["exiting"]]), copt(wi))
 
 
+def bs_coq(obs):
+    def unit(u):
+        if len(u) == 1:
+            return u[0]
+        if u[0] == "BSetup":
+            return "BSetup %s %d" % (u[1], u[2])
+        if u[0] == "BLoadConst":
+            return "BLoadConst %s" % cbool(u[1])
+        return "%s %d" % (u[0], u[1])
+
+    def ex(e):
+        p, r = e
+        if r == "none":
+            return "(%d, ENone)" % p
+        if r == "warn":
+            return "(%d, EWarn)" % p
+        if r == "crash":
+            return "(%d, ECrash)" % p
+        return "(%d, EExit %s %d)" % (p, cbool(r[1]), r[2])
+
+    def st(s):
+        return "None" if s is None else "Some " + clist([str(h) for h in s])
+
+    return "(%s,\n %s,\n %s,\n %s)" % (clist([unit(u) for u in obs["units"]]), clist([st(s) for s in obs["cert"]]),
+                                        clist(["(%d, %s)" % (h, cbool(a)) for h, a in obs["info"]]),
+                                        clist([ex(e) for e in obs["exits"]]))
+
+
 def direct_oracle(desc, obs):
     if desc["_kind"] == "live":
+        return None
+    if desc["_kind"] == "bs":
+        if "machine_error" in obs:
+            return ("the block-stack machine cannot explain this code object (no certificate): %s -- either the "
+                    "CPython 3.9/3.10 model is incomplete for it or the compiler broke an assumption" % obs["machine_error"])
+        bad = [e for e in obs["exits"] if e[1] in ("warn", "crash") and obs["cert"][e[0]] is not None]
+        if bad:
+            return ("currently_exiting_context %s on reachable compiler output at units %r"
+                    % ("emitted an InspectionWarning" if bad[0][1] == "warn" else "raised", [e[0] for e in bad][:8]))
         return None
     if desc["_kind"] == "table":
         return None if obs["agrees_with_dis"] else "_parse_exception_table disagrees with CPython's own dis._parse_exception_table"
@@ -753,6 +838,9 @@ def classify(desc, obs):
     if desc["_kind"] == "live":
         tag = ":py3.11" if desc.get("ver") == "V311" else ""
         return ["live%s:states=%s" % (tag, obs.get("states")), "live%s:unmapped=%s" % (tag, obs.get("unmapped_states"))]
+    if desc["_kind"] == "bs":
+        return ["%s:bs:py%s" % (desc["src"], desc.get("ver")),
+                "bs:exit_sites=%d" % min(len([e for e in obs.get("exits", []) if isinstance(e[1], list)]), 5)]
     labs = [desc["src"] + ":" + desc["_kind"] + (":py3.11" if desc.get("ver") == "V311" else "")]
     if "units" in obs:
         labs.append("units<%d" % (50 if obs["units"] < 50 else 200 if obs["units"] < 200 else 1000 if obs["units"] < 1000 else 100000))
